@@ -121,6 +121,16 @@ CHECKS = {
         "technique": "Hypothesis generation, metamorphic oracle (suffix shift, prefix replacement)",
         "ref": "DESIGN.md 4 C16",
     },
+    "C08": {
+        "level": "Metamorphic search on the 11 bundled grammars of the nine families: 1-3 random rewrites (six "
+        "kinds) at random sites obtained from the meta-grammar oracle, corpus and mutated inputs, four modes; "
+        "outcome class and tree must equal those of the original grammar.",
+        "note": "Trusted: span extraction by the meta-grammar oracle (every rewritten text is re-validated); NEVER "
+        "is a private-use literal absent from all inputs.",
+        "technique": "metamorphic testing with generated rewrite sequences over real grammars and a mutated "
+        "corpus",
+        "ref": "DESIGN.md 4 C08",
+    },
     "C09": {
         "level": "Exhaustive enumeration of all operation histories up to length 8/8/6 (quick) or 10/10/7 "
         "(thorough) for Stack / SnapshottingInt / ParserState against a full-copy reference model, plus "
@@ -141,6 +151,18 @@ CHECKS = {
         "technique": "exhaustive small-scope enumeration + Hypothesis text generation against a closed-form "
         "oracle (with inverse-map round trip)",
         "ref": "DESIGN.md 4 C14",
+    },
+    "C17": {
+        "level": "Hypothesis-generated RFC 8259 documents (own serialiser: whitespace placement, number and string "
+        "spellings) against json.loads for both JSON grammars in four modes incl. rejection of proper "
+        "prefixes; Hypothesis-generated arithmetic expressions printed from the documented precedence table "
+        "against an independent evaluator for the three calculator implementations, regenerated from the "
+        "current tree with and without the optimizer.",
+        "note": "Trusted: json.loads, the 30-line reference evaluator, the documented precedence table in "
+        "grammar_encoded_prec.pest.",
+        "technique": "Hypothesis recursive generation, differential oracle against independent reference "
+        "implementations",
+        "ref": "DESIGN.md 4 C17",
     },
     "C18": {
         "level": "Hypothesis-generated operator tables and well-formed Pair streams (<= 12 tokens) checked "
